@@ -409,3 +409,6 @@ _quick("C19", "C01_pooled", _POOLED + " (server side of RLock / Semaphore re-ent
 _quick("C02", "C02_bigcancel", "exclusive holder + N in {3,150,300} queued requests (inline slice, its growth, overflow ring), none or one already served; a cancel-wait UNLOCK names the first / second / middle / 256th / 257th / 258th / last queued request: LOCKED_ERROR + UNLOCK_ERROR, WaitCount - 1, request gone; a second cancel is refused and changes nothing; three hand-overs served in arrival order without the cancelled request", ["-witness", "5"], reach=["end", "cancelled"])
 
 _quick("C04", "C04_handover", "a key that is never idle: an exclusive hold handed over 20 times, 1 / 2 / alternately 1 and 2 new requests queued before every hand-over, in every third round none / the newest / the oldest queued request cancelled first; every hand-over grants exactly the oldest live queued request, nothing is left queued", ["-witness", "1"])
+
+_quick("C06", "C06_longrecycle", "every program of 6 events out of {new hold on a fresh key with E = 8 s, with E = 14 s (zero persistence delay: filed in the long-expiry table at once), release the oldest live hold, release the newest, 2 s pass}, then second by second until every deadline is 3 s past: buckets of the long-expiry table emptied by releases, recycled through the shard's free list and taken again for other deadlines; no hold ends before E, each unreleased one draws exactly one EXPRIED by E + 2 s, a released one none", ["-witness", "50"], reach=["end", "released"])
+_quick("C07", "C07_program", "every program of 5 operations persisted at once, from {LOCK key1 by L1 (re-entrant), LOCK key2 by L2, value-only LOCK on key1 (Expried 0 with SET), LOCK key1 by L3 (Count 1), UNLOCK L1, UNLOCK L2, UNLOCK L3}, then a restart: per key the same LockIds, depths and value (Lock objects pass through the shard's pool in every order)", ["-witness", "100"], reach=["end", "held"])
